@@ -628,7 +628,14 @@ def run(chk):
     corr.finalize_cov(chk)
 
 
-MODELLED_NOT_PROVED = []
+MODELLED_NOT_PROVED = [
+    "sections_refine / reparse_sections for COMPRESSED initial messages: stated in full (Props.C10.sections_refine_compressed, "
+    "with a Lean reference compressor), evaluated by the kernel on instances, checked by correspondence + oracle on "
+    "compressed reference encodings; proved: memory safety on every input, insertion_is_shift and "
+    "pointers_preserved_partial (resolution preserved along re-targeted paths) for any stored bytes",
+    "DNS::soa_record::init / decode_domain_name (typed decoding of SOA data handed out by the getters) is not modelled",
+    "inet_pton / inet_ntop are parameters of the model",
+]
 
 
 def replay(path):
